@@ -66,4 +66,10 @@ def outsFrom (k : Consts) (t : DevTree) : Int → List Ev → List Out
   | now, .advance dt :: r => outsFrom k t (now + Int.ofNat dt) r
   | now, .recv rq req sel :: r => outsOf k t now rq req sel ++ outsFrom k t now r
 
+/-- the receptions of a history, each with its reception time: (time, requester, request, jitter choice) -/
+def recvsFrom : Int → List Ev → List (Int × Str × Req × Option Nat)
+  | _, [] => []
+  | now, .advance dt :: r => recvsFrom (now + Int.ofNat dt) r
+  | now, .recv rq req sel :: r => (now, rq, req, sel) :: recvsFrom now r
+
 end Upnp.C13
